@@ -60,9 +60,9 @@ Definition both_cases (kw : kws) : kws := concat (map (fun p => [p; (100 + fst p
 (* ---------------------------------------------------------------------------------------------- state *)
 (* what the history alone determines (no observation enters here): Tor's view; which object stands for
    which id Tor currently has (the first event for an id Tor does not have creates the next object); for
-   every object so far its Tor id, whether it reached BUILT, whether it ended FAILED; the listeners
+   every object so far its Tor id and whether it reached BUILT; the listeners
    registered on it; the global listener lists; the wait ids used *)
-Record oinfo := { oi_id : N; oi_built : bool; oi_failed : bool }.
+Record oinfo := { oi_id : N; oi_built : bool }.
 
 Record lstate := { l_tv : tview;
                    l_cdict : list (N * N); l_sdict : list (N * N);      (* Tor id -> object, for the ids Tor has *)
@@ -89,7 +89,7 @@ Definition alive (dict : list (N * N)) (o : N) : bool := memN o (map snd dict).
 Definition add_to_all (l : N) (dict : list (N * N)) (regs : list (N * list N)) : list (N * list N) :=
   fold_left (fun t p => tset t (snd p) (add_once l (tget [] t (snd p)))) dict regs.
 
-Definition info0 (id : N) : oinfo := {| oi_id := id; oi_built := false; oi_failed := false |}.
+Definition info0 (id : N) : oinfo := {| oi_id := id; oi_built := false |}.
 
 (* None = not a history the property quantifies over *)
 Definition lstep (ls : lstate) (o : op) : option lstate :=
@@ -108,8 +108,7 @@ Definition lstep (ls : lstate) (o : op) : option lstate :=
                   l_nc := if first then l_nc ls + 1 else l_nc ls; l_ns := l_ns ls;
                   l_cinfo := tset (l_cinfo ls) o
                                {| oi_id := id;
-                                  oi_built := oi_built old || match st with CBuilt => true | _ => false end;
-                                  oi_failed := match st with CFailed => true | _ => false end |};
+                                  oi_built := oi_built old || match st with CBuilt => true | _ => false end |};
                   l_sinfo := l_sinfo ls;
                   l_cregs := if first then tset (l_cregs ls) o (dedupe (l_gcl ls)) else l_cregs ls;
                   l_sregs := l_sregs ls; l_gcl := l_gcl ls; l_gsl := l_gsl ls; l_used := l_used ls |}
@@ -423,30 +422,3 @@ Definition notifs_exact (ops : list op) (tr : list (list nev)) : bool := notifs_
 (* histories without close requests *)
 Definition no_close (ops : list op) : bool :=
   forallb (fun o => match o with OCClose _ _ | OSClose _ _ => false | _ => true end) ops.
-
-(* ---------------------------------------------------------------------------------------------- open findings *)
-(* input classes of the two open findings (mirrored in harness/drive_C08.py finding_preds):
-   C08-F1  Stream.close() on a Stream object whose CLOSED / FAILED was already delivered
-   C08-F2  Circuit.close() on a Circuit object that Tor reported FAILED (state CLOSED is handled) *)
-Fixpoint stream_close_after_gone_from (ls : lstate) (ops : list op) : bool :=
-  match ops with
-  | [] => false
-  | o :: t =>
-      match o with
-      | OSClose ob _ => (ob <? l_ns ls) && negb (alive (l_sdict ls) ob)
-      | _ => false
-      end
-      || match lstep ls o with Some ls' => stream_close_after_gone_from ls' t | None => false end
-  end.
-Fixpoint circuit_close_after_failed_from (ls : lstate) (ops : list op) : bool :=
-  match ops with
-  | [] => false
-  | o :: t =>
-      match o with
-      | OCClose ob _ => (ob <? l_nc ls) && oi_failed (tget (info0 0) (l_cinfo ls) ob)
-      | _ => false
-      end
-      || match lstep ls o with Some ls' => circuit_close_after_failed_from ls' t | None => false end
-  end.
-Definition stream_close_after_gone (ops : list op) : bool := stream_close_after_gone_from ls0 ops.
-Definition circuit_close_after_failed (ops : list op) : bool := circuit_close_after_failed_from ls0 ops.
